@@ -75,21 +75,9 @@ func (v *Vue) evalElseIfChain(ctx VueContext, node *html.Node, nodes []*html.Nod
 		}
 		if ok {
 			// v-if condition is true - evaluate node (don't remove attribute here, filter during rendering)
-			// Find the last node in the chain to determine skipCount
-			// We need to skip past any v-else-if and v-else nodes that follow
-			for idx := 1; idx < len(nodes); idx++ {
-				nextNode := nodes[idx]
-				if nextNode.Type != html.ElementNode {
-					continue
-				}
-				if !helpers.HasAttr(nextNode, "v-else-if") && !helpers.HasAttr(nextNode, "v-else") {
-					break
-				}
-				lastChainNodeIdx = idx
-			}
-			// Evaluate the node (evaluateNodeAsElement handles cloning internally)
+			// and skip past any v-else-if and v-else nodes that follow
 			evaluated, err := v.evaluateNodeAsElement(ctx, node, depth)
-			return evaluated, lastChainNodeIdx, err
+			return evaluated, chainEnd(nodes, 0), err
 		}
 		// v-if condition is false - check next nodes for v-else-if or v-else
 	} else {
@@ -122,8 +110,10 @@ func (v *Vue) evalElseIfChain(ctx VueContext, node *html.Node, nodes []*html.Nod
 			if ok {
 				// v-else-if condition is true - evaluate and return this node (don't remove attribute, filter during rendering)
 				// Evaluate the node (evaluateNodeAsElement handles cloning internally)
+				// The members after the selected one belong to the chain as well: they are
+				// skipped here, not left to evaluate(), which would run a v-for on one of them
 				evaluated, err := v.evaluateNodeAsElement(ctx, nextNode, depth)
-				return evaluated, idx, err
+				return evaluated, chainEnd(nodes, idx), err
 			}
 			// v-else-if condition is false - continue to next
 			continue
@@ -134,12 +124,30 @@ func (v *Vue) evalElseIfChain(ctx VueContext, node *html.Node, nodes []*html.Nod
 			// v-else always matches - evaluate and return this node (don't remove attribute, filter during rendering)
 			// Evaluate the node (evaluateNodeAsElement handles cloning internally)
 			evaluated, err := v.evaluateNodeAsElement(ctx, nextNode, depth)
-			return evaluated, idx, err
+			return evaluated, chainEnd(nodes, idx), err
 		}
 	}
 
 	// No condition in the chain was true - skip all chain nodes anyway
 	return result, lastChainNodeIdx, nil
+}
+
+// chainEnd returns the index of the last member of the v-if chain that nodes[from] is a
+// member of: the last of the v-else-if / v-else elements that follow it, text and comments
+// between them aside.
+func chainEnd(nodes []*html.Node, from int) int {
+	last := from
+	for idx := from + 1; idx < len(nodes); idx++ {
+		next := nodes[idx]
+		if next.Type != html.ElementNode {
+			continue
+		}
+		if !helpers.HasAttr(next, "v-else-if") && !helpers.HasAttr(next, "v-else") {
+			break
+		}
+		last = idx
+	}
+	return last
 }
 
 // evaluateNodeAsElement evaluates the member that a v-if chain (or the v-else of an empty
